@@ -342,10 +342,29 @@ func (c *c07) reimport(nAcc int, roles []uint64, perms []uint32, tag string) {
 			}
 		}
 	}
+	direct := map[int]string{}
+	for i := 0; i < nAcc; i++ {
+		if a, ok := c.k.GetNetworkActorByAddress(c.ctx, c.w.addrs[i]); ok {
+			direct[i] = fmt.Sprintf("roles=%v wl=%v bl=%v", a.Roles, a.Permissions.Whitelist, a.Permissions.Blacklist)
+		}
+	}
 	failed := c.w.ReimportGovInPlace(c.ctx)
 	out := "ok"
 	if failed != nil {
 		out = "panic"
+	}
+	if failed == nil {
+		// an account's own roles, whitelist and BLACKLIST entries travel with the genesis (an actor record that holds
+		// nothing at all may be dropped: it says nothing)
+		for i := 0; i < nAcc; i++ {
+			now := ""
+			if a, ok := c.k.GetNetworkActorByAddress(c.ctx, c.w.addrs[i]); ok {
+				now = fmt.Sprintf("roles=%v wl=%v bl=%v", a.Roles, a.Permissions.Whitelist, a.Permissions.Blacklist)
+			}
+			if was := direct[i]; was != now && !(was == "roles=[] wl=[] bl=[]" && now == "") && !(was == "" && now == "roles=[] wl=[] bl=[]") {
+				c.r.Fail("C07/genesis-import/actor-record-changed", fmt.Sprintf("%s: account %d before export: %q, after import: %q", tag, i, was, now), nil)
+			}
+		}
 	}
 	var accs []string
 	for i := 0; i <= nAcc; i++ {
@@ -596,6 +615,11 @@ func runC07(r *Rec) {
 					ok := c.op(k2, x2, y2)
 					c.forcePath = ""
 					c.observe(nAcc, []uint64{ra}, []uint32{61}, fmt.Sprintf("pair %v/%s/%s via %s", pre, k1, k2, path))
+					if (i1+i2+pi)%3 == 0 {
+						// ... and the state reached goes through a genesis export / import (an actor holding only a blacklist entry,
+						// a role holding only a blacklist entry, an assigned but empty role, ...)
+						c.reimport(nAcc, append(append([]uint64{}, roles...), ra, rb), []uint32{61}, fmt.Sprintf("pair %v/%s/%s via %s", pre, k1, k2, path))
+					}
 					r.Case(fmt.Sprintf("pair/%v/%s/%s/%s/%v", pre, k1, k2, path, ok), true)
 					pairN++
 				}
